@@ -11,7 +11,7 @@ the peer submitted; a modified record yields a fatal alert, no data from it or a
 genuine in-order records are delivered; records built by a key holder are judged by the RFC rules re-implemented
 here (hashlib HMAC, padding rules); a crash of the receiver is a violation.
 """
-import hashlib, hmac as pyhmac, json, os, threading, time
+import hashlib, hmac as pyhmac, json, os, re, threading, time
 import vlib
 
 WRAPS = ["psGetBrokenDownGMTime", "psGetEntropy", "psGetPrngLocked", "psGetTime", "csAesGcmEncryptTls13", "csChacha20Poly1305IetfEncryptTls13"]
@@ -31,9 +31,11 @@ CONFIGS = [
     ("tls12-ecdhe-aes256-cbc-sha384", "cv=3 sv=3 suite=c028", "thorough"),
     ("tls11-aes256-cbc-sha1", "cv=2 sv=2 suite=0035", "thorough"),
     ("tls12-ecdhe-aes256-gcm", "cv=3 sv=3 suite=c030", "thorough"),
-    ("tls13-aes256-gcm", "cv=4 sv=4 suite=1302", "thorough"),
+    ("tls13-aes256-gcm", "cv=4 sv=4 suite=1302", "quick"),
 ]
 
+PAD_BLOCKS = [64, 200, 256, 512, 4096]
+TLS13_PADS = [0, 1, 15, 16, 17, 255, 256, 257, 300, 511, 512, 513, 1000, 4095]
 HASH = {20: hashlib.sha1, 32: hashlib.sha256, 48: hashlib.sha384}
 FATAL_BAD_MAC, FATAL_DECRYPT, FATAL_OVERFLOW, FATAL_UNEXPECTED, FATAL_ILLEGAL = 20, 51, 22, 10, 47
 
@@ -60,9 +62,9 @@ class State:
 
 
 class Sess:
-    def __init__(self, name, opts, seed, msgs):
-        self.name, self.opts, self.seed, self.msgs = name, opts, seed, msgs
-        self.key = "%s seed=%d msgs=%s" % (opts, seed, ",".join("%s:%s" % (s, m.hex() if len(m) <= 600 else "@%d:%02x" % (len(m), m[0])) for s, m in msgs))
+    def __init__(self, name, opts, seed, msgs, pad=None):
+        self.name, self.opts, self.seed, self.msgs, self.pad = name, opts, seed, msgs, pad
+        self.key = "%s seed=%d %smsgs=%s" % (opts, seed, ("pad=c:%d,s:%d " % (pad["c"], pad["s"])) if pad else "", ",".join("%s:%s" % (s, m.hex() if len(m) <= 600 else "@%d:%02x" % (len(m), m[0])) for s, m in msgs))
         self.ok = False
 
     def load(self, capline):
@@ -177,6 +179,20 @@ def attacker_edits(ck, se, to, thorough):
     return out
 
 
+def padded_edits(ck, se, to, thorough):
+    """sessions with block padding: everything in order, then edits aimed at the padding region"""
+    G = se.recs[to]
+    out = [("padded:identity", b"".join(G)), ("padded:first-two", G[0] + G[1]), ("padded:swap", G[1] + G[0] + G[2]), ("padded:replay", G[0] + G[0] + G[1])]
+    r0 = G[0]
+    for b in range(0, 8 * len(r0), 1 if (thorough and len(r0) <= 300) else max(1, (8 * len(r0)) // (160 if len(r0) <= 600 else 24))):
+        out.append(("padded:bitflip", flip(r0, b) + G[1]))
+    for cut in (1, 16, len(r0) // 2):          # shorten the padded record (drop padding bytes), length fixed up
+        body = r0[5:-cut]
+        out.append(("padded:shortened", hdr(23, 3, 3, len(body)) + body + G[1]))
+    out.append(("padded:extended", hdr(23, 3, 3, len(r0) - 5 + 16) + r0[5:] + bytes(16) + G[1]))
+    return out
+
+
 # ------------------------------------------------------------------ records a key holder can build (exercise pad / MAC / length logic)
 class Forger:
     """collects `enc` requests for the harness, then assembles wires"""
@@ -233,6 +249,13 @@ def forged_cases(ck, se, to, fg, thorough):
         for p in range(256):
             if (ivl + len(data) + st.msz + p + 1) % 16 == 0:
                 add("forged:cbc-long-padding-valid", cbc_plain(st, 23, data, padlen=p), ("deliver", data))
+        # ... and at every block boundary: for every p two data lengths that make  IV + data + MAC + p + 1  a block multiple
+        for p in range(256):
+            d0 = (-(ivl + st.msz + p + 1)) % 16
+            for dl in ((d0, d0 + 16) if thorough else ((d0 + 16,) if (p % 2 or d0 == 0) else (d0,))):
+                if dl == 0: continue
+                dd = pat(dl, p)
+                add("forged:cbc-every-padlen:%d" % p, cbc_plain(st, 23, dd, padlen=p), ("deliver", dd))
         # padding length byte sweep on a record of FIXED length (valid MAC where a MAC position exists)
         base = cbc_plain(st, 23, data)
         for p in range(256):
@@ -315,6 +338,28 @@ def forged_cases(ck, se, to, fg, thorough):
             add("forged:tls13-genuine-shape", 23, data + b"\x17", ("deliver", data))
             for z in (1, 2, 15, 100, 255):
                 add("forged:tls13-zero-padding", 23, data + b"\x17" + bytes(z), ("deliver", data))
+            # RFC 8446 5.4 record padding: every length class of the zero run (8-bit / 16-bit wrap points, block multiples), for
+            # application data, alerts and handshake content; results must not depend on the amount of padding (judged in run())
+            long = pat(300, 0x21)
+            for z in TLS13_PADS:
+                add("forged:tls13-pad:app-short:%d" % z, 23, data + b"\x17" + bytes(z), ("deliver", data))
+                add("forged:tls13-pad:app-long:%d" % z, 23, long + b"\x17" + bytes(z), ("deliver", long))
+                add("forged:tls13-pad:app-zeros-inside:%d" % z, 23, b"\x00a\x00\x00" + b"\x17" + bytes(z), ("deliver", b"\x00a\x00\x00"))
+                add("forged:tls13-pad:alert-close:%d" % z, 23, b"\x01\x00" + b"\x15" + bytes(z), ("meta",))
+                add("forged:tls13-pad:alert-fatal:%d" % z, 23, b"\x02\x28" + b"\x15" + bytes(z), ("meta",))
+                add("forged:tls13-pad:handshake:%d" % z, 23, b"\x63\x00\x00\x00" + b"\x16" + bytes(z), ("meta",))
+                add("forged:tls13-pad:empty-content:%d" % z, 23, b"\x17" + bytes(z), ("meta",))
+            for n in (1, 2, 17, 255, 256, 257, 300, 512, 4096):
+                add("forged:tls13-all-zero-inner:%d" % n, 23, bytes(n), ("fatal",))
+            if thorough or st.fam == "gcm13":
+                big = pat(16384, 11)
+                add("forged:tls13-limit:content-16384-pad-239", 23, big + b"\x17" + bytes(239), ("deliver", big))          # ciphertext 16640: the maximum
+                add("forged:tls13-limit:content-16384-pad-240", 23, big + b"\x17" + bytes(240), ("fatal",))               # ciphertext 16641
+                add("forged:tls13-limit:content-1-pad-16383", 23, b"x\x17" + bytes(16383), ("deliver", b"x"))               # inner 2^14 + 1
+                add("forged:tls13-limit:content-1-pad-16384", 23, b"x\x17" + bytes(16384), ("deliver-or-fatal", b"x"))      # inner 2^14 + 2 (RFC: too long; fits the record)
+                add("forged:tls13-limit:content-5-pad-16618", 23, data + b"\x17" + bytes(16618), ("deliver-or-fatal", data))
+                add("forged:tls13-limit:content-16385", 23, big + b"y\x17", ("fatal",))
+                add("forged:tls13-limit:all-zero-16624", 23, bytes(16624), ("fatal",))
             add("forged:tls13-all-zero-inner", 23, bytes(6), ("fatal",))
             add("forged:tls13-empty-content", 23, b"\x17", ("any",))
             add("forged:tls13-empty-content-padded", 23, b"\x17" + bytes(7), ("any",))
@@ -355,7 +400,10 @@ def canon_model(line):
     out = []
     for t in line.split():
         if t == "S": continue
-        if t[0] == "T" and ":" in t and t[1:t.index(":")].isdigit() and int(t[1:t.index(":")]) not in (20, 21, 22, 23): continue
+        if t[0] == "T" and ":" in t and t[1:t.index(":")].isdigit():
+            ty = int(t[1:t.index(":")])
+            if ty not in (20, 21, 22, 23): continue
+            if ty == 21: t = "R"              # a verified alert: handed to the application like an unprotected one
         out.append(t)
     return " ".join(out)
 
@@ -381,7 +429,7 @@ def judge_edit(ck, se, to, label, wire, res, line):
     G, pts = se.recs[to], se.pts[to]
     v13 = se.fam.endswith("13")
     sig = "%s:%s" % (se.fam, label.split(":")[0])
-    rep = {"harness": "h_rec", "case": line[:6000], "observed": res["raw"][:600], "config": se.name}
+    rep = {"harness": "h_rec", "case": line[:70000], "observed": res["raw"][:600], "config": se.name}
     if res["crash"]:
         ck.spec_violation("crash:%s" % sig, "the receiver crashed (%s) on an edited record stream [%s, %s]" % (res["crash"], se.name, label),
                           dict(rep, expected_by_spec="fatal alert or data, never a fault")); return
@@ -425,19 +473,29 @@ def judge_edit(ck, se, to, label, wire, res, line):
 
 def judge_forged(ck, se, to, label, expect, res, line):
     sig = "%s:%s" % (se.fam, label)
-    rep = {"harness": "h_rec", "case": line[:6000], "observed": res["raw"][:600], "config": se.name, "expected_by_spec": str(expect)[:200]}
+    rep = {"harness": "h_rec", "case": line[:70000], "observed": res["raw"][:600], "config": se.name, "expected_by_spec": str(expect)[:200]}
     if res["crash"]:
         ck.spec_violation("crash:%s" % sig, "the receiver crashed (%s) on a record built with the session keys [%s, %s]" % (res["crash"], se.name, label), rep); return
     got = delivered(res)
     killed = any(e.startswith("F:") for e in res["events"]) and res["dead"] == 1
     if expect[0] == "deliver":
-        if got != [expect[1]] or res["dead"]:
+        if got and got != [expect[1]]:
+            ck.spec_violation("wrong-data-delivered:%s" % sig, "the bytes delivered differ from the content the record carries - %d bytes delivered, %d sent, common prefix %d [%s, %s]" % (
+                              len(b"".join(got)), len(expect[1]), len(os.path.commonprefix([b"".join(got), expect[1]])), se.name, label), rep)
+        elif got != [expect[1]] or res["dead"]:
             ck.spec_violation("valid-record-rejected:%s" % sig, "a well-formed record (RFC 5246 6.2.3 / RFC 8446 5.2) was not delivered [%s, %s]: %s" % (se.name, label, res["raw"][:80]), rep)
         else: ck.count("oracle:forged-valid-delivered")
     elif expect[0] == "fatal":
         if got or not killed:
             ck.spec_violation("invalid-record-accepted:%s" % sig, "a record with an invalid padding / MAC / tag / length was not rejected fatally [%s, %s]: %s" % (se.name, label, res["raw"][:80]), rep)
         else: ck.count("oracle:forged-invalid-fatal")
+    elif expect[0] == "deliver-or-fatal":
+        if got not in ([], [expect[1]]) or (not got and not killed):
+            ck.spec_violation("invalid-record-accepted:%s" % sig, "an over-long padded record delivered something else than its content [%s, %s]: %s" % (se.name, label, res["raw"][:80]), rep)
+        else: ck.count("oracle:forged-overlong-%s" % ("delivered" if got else "fatal"))
+    elif expect[0] == "meta":
+        if got: ck.spec_violation("invalid-record-accepted:%s" % sig, "application data delivered from a record whose inner type is not application_data / has no content [%s, %s]: %s" % (se.name, label, res["raw"][:80]), rep)
+        else: ck.count("oracle:forged-non-appdata")
     elif expect[0] == "nodata":
         if got: ck.spec_violation("invalid-record-accepted:%s" % sig, "data delivered from a record of unknown content type [%s]" % se.name, rep)
         else: ck.count("oracle:forged-nodata")
@@ -520,6 +578,16 @@ def run(ck):
     thorough = ck.tier == "thorough"
     t0 = time.time()
     sessions = [Sess(n, o, ck.seed % 1000 + 1, messages(thorough)) for n, o, tier in CONFIGS if thorough or tier == "quick"]
+    # live RFC 8446 5.4 padding: matrixSslSetTls13BlockPadding(side, N) on both sides, short and long writes
+    pmsgs = [("c", b"hello"), ("c", b"hi"), ("c", pat(1000, 0x31)), ("c", pat(5000, 0x32)), ("s", b"yyy"), ("s", b"reply"), ("s", pat(1000, 0x61)), ("s", pat(5000, 0x62))]
+    suites13 = [("tls13-aes128-gcm", "1301"), ("tls13-aes256-gcm", "1302"), ("tls13-chacha20", "1303")]
+    for i, n in enumerate(PAD_BLOCKS):
+        for j, (sn, su) in enumerate(suites13):
+            if thorough or j == i % 3:
+                sessions.append(Sess("%s-blockpad-%d" % (sn, n), "cv=4 sv=4 suite=%s" % su, ck.seed % 1000 + 1, pmsgs, pad={"c": n, "s": n}))
+    if thorough:
+        sessions.append(Sess("tls13-aes128-gcm-blockpad-c16384-s1", "cv=4 sv=4 suite=1301", ck.seed % 1000 + 1, pmsgs, pad={"c": 16384, "s": 1}))
+        sessions.append(Sess("tls13-chacha20-blockpad-c300-s4096", "cv=4 sv=4 suite=1303", ck.seed % 1000 + 1, pmsgs, pad={"c": 300, "s": 4096}))
     rc, caps, err = ck.run_lines(h, ["cap %s |" % s.key for s in sessions], timeout=600)
     for s, c in zip(sessions, caps + [""] * len(sessions)):
         if not s.load(c):
@@ -531,7 +599,11 @@ def run(ck):
     plan = []     # (session, to, label, wire-or-builder, expect-or-None)
     for se in sessions:
         for to in ("s", "c"):
-            if to == "c" and not thorough and se.name not in ("tls12-aes128-cbc-sha1", "tls12-aes128-gcm", "tls13-aes128-gcm"):
+            if to == "c" and not thorough and not se.pad and se.name not in ("tls12-aes128-cbc-sha1", "tls12-aes128-gcm", "tls13-aes128-gcm"):
+                continue
+            if se.pad:
+                for label, wire in padded_edits(ck, se, to, thorough):
+                    plan.append((se, to, label, wire, None))
                 continue
             for label, wire in attacker_edits(ck, se, to, thorough):
                 plan.append((se, to, label, wire, None))
@@ -546,7 +618,7 @@ def run(ck):
         l = se.run_line(to, wire)
         if l in seen: continue
         seen.add(l); lines.append(l); meta.append((se, to, label, wire, expect))
-        ck.count("%s:%s" % (se.fam, label))
+        ck.count("%s:%s" % (se.fam, re.sub(r":\d+$", "", label)))
     ck.log("%d sessions, %d cases (%d forged-record requests) built in %.1fs" % (len(sessions), len(lines), len(fg.req), time.time() - t0))
     t1 = time.time()
     rc, impl, err = ck.run_lines(h, lines, timeout=3000)
@@ -560,7 +632,7 @@ def run(ck):
     ci, cm = [canon_impl(x) for x in impl], [canon_model(x) for x in model]
     for fam in sorted({m[0].fam for m in meta if m}):
         # TLS 1.3 change_cipher_spec skipping lives in the API buffer loop (C18's model), not in the record model: judged by the oracle only
-        idx = [i for i, m in enumerate(meta) if (m and m[0].fam == fam and not (fam.endswith("13") and m[2] == "inject:ccs")) or (m is None and (" | %s " % fam) in lines[i])]
+        idx = [i for i, m in enumerate(meta) if (m and m[0].fam == fam and not (fam.endswith("13") and (m[2] == "inject:ccs" or m[2].startswith("forged:tls13-pad:handshake")))) or (m is None and (" | %s " % fam) in lines[i])]
         ck.correspond("record layer %s: run_wire(model) vs matrixSslReceivedData(impl) on captured keys" % fam, [lines[i] for i in idx], [ci[i] for i in idx], [cm[i] for i in idx],
                       nontrivial=lambda c, o: not o.startswith("P"))
     ck.rules.append("per suite family x version: a live session is established, 3+ application records per direction are captured with the receiver's read state; "
@@ -569,17 +641,20 @@ def run(ck):
                     "key-holder records = padding-length byte sweep 0..255 (valid long padding, one wrong pad byte with a valid MAC, length byte beyond the record, valid MAC at the fake MAC position), every MAC bit flipped, "
                     "MAC/AAD over wrong seq/type/version/length, empty / 16384 / 16385-byte plaintexts, TLS 1.3 zero padding and inner-type variants. Non-trivial = the receiver processed a complete record.")
     # ---- Impl vs Spec
+    ntrouble = []
     for i, m in enumerate(meta):
         res = parse_result(impl[i])
         if m is None:
             if res["crash"]:
-                ck.spec_violation("crash:corpus", "corpus case crashes the receiver: %s" % res["crash"], {"harness": "h_rec", "case": lines[i][:6000], "observed": impl[i]})
+                ck.spec_violation("crash:corpus", "corpus case crashes the receiver: %s" % res["crash"], {"harness": "h_rec", "case": lines[i][:70000], "observed": impl[i]})
             continue
         se, to, label, wire, expect = m
         if impl[i].startswith(("STATE-MISMATCH", "SETUP-FAIL", "BADCASE", "NOOUTPUT")):
-            ck.count("harness-trouble"); continue
+            ck.count("harness-trouble:" + impl[i].split()[0]); ntrouble.append(lines[i][:200]); continue
         if expect is None: judge_edit(ck, se, to, label, wire, res, lines[i])
         else: judge_forged(ck, se, to, label, expect, res, lines[i])
+    if ntrouble:
+        ck.obligation("harness:sessions-reproducible", False, detail="%d cases could not be run on the captured state, e.g. %s" % (len(ntrouble), ntrouble[0]))
     # padding vs MAC failure: same alert, same final sequence number (no oracle in the result)
     for se in sessions:
         if se.fam != "cbc": continue
@@ -591,6 +666,33 @@ def run(ck):
             ck.spec_violation("padding-oracle-in-result:%s" % se.name, "padding failures and MAC failures are answered differently: %s" % {k: v[:2] for k, v in outs.items()},
                               {"harness": "h_rec", "observed": str({k: len(v) for k, v in outs.items()}), "config": se.name, "expected_by_spec": "one alert, one state for every padding / MAC failure"})
         else: ck.count("oracle:pad-mac-uniform")
+    # TLS 1.3 record padding must be invisible: the same inner content gives the same events whatever the number of zeros
+    groups = {}
+    for i, m in enumerate(meta):
+        if m and m[2].startswith("forged:tls13-pad:"):
+            kind = m[2].rsplit(":", 1)[0]
+            groups.setdefault((m[0].name, m[1], kind), {}).setdefault(canon_impl(impl[i]), []).append((int(m[2].rsplit(":", 1)[1]), i))
+    for (name, to, kind), outs in groups.items():
+        if len(outs) > 1:
+            ref = max(outs.items(), key=lambda kv: len(kv[1]))[0]
+            odd = sorted((z, i) for o, v in outs.items() if o != ref for z, i in v)
+            z, i = odd[0]
+            ck.spec_violation("tls13-padding-changes-outcome:%s:%s" % (meta[i][0].fam, kind.split(":")[-1]),
+                              "TLS 1.3 record with %d bytes of zero padding is treated differently from the same content with other padding lengths [%s, %s]: %s instead of %s (padding lengths affected: %s)" % (
+                              z, name, kind, canon_impl(impl[i])[:80], ref[:80], [x for x, _ in odd][:12]),
+                              {"harness": "h_rec", "case": lines[i][:70000], "observed": impl[i][:400], "config": name, "expected_by_spec": ref[:200]})
+        else: ck.count("oracle:tls13-padding-invisible")
+    # sending side of block padding: the record on the wire has the padded length (the zeros themselves: seal correspondence below)
+    for se in sessions:
+        if not se.pad: continue
+        for to in ("s", "c"):
+            n = se.pad["c" if to == "s" else "s"]
+            for rec, pt in zip(se.recs[to], se.pts[to]):
+                inner = min(-(-(len(pt) + 1) // n) * n, 16385)
+                if rec[:3] != b"\x17\x03\x03" or len(rec) - 5 != inner + 16:
+                    ck.spec_violation("tls13-sender-padding:%s" % se.fam, "record sent with block padding %d for a %d-byte write has %d body bytes, expected %d [%s]" % (n, len(pt), len(rec) - 5, inner + 16, se.name),
+                                      {"harness": "h_rec", "case": "cap %s |" % se.key, "observed": rec[:5].hex(), "config": se.name, "expected_by_spec": "17 03 03 + length %d" % (inner + 16)})
+                else: ck.count("oracle:tls13-sender-padded-length")
     # ---- seal: the sender's bytes are the model's bytes (genuine records against seal_* of the model)
     seal_cases, want = [], []
     for se in sessions:
@@ -605,7 +707,7 @@ def run(ck):
                     s2 = st.with_(seq=seq, expl=0, iv=body[:16]); exp = body[16:]
                 else:
                     s2 = st.with_(seq=seq); exp = body
-                seal_cases.append("seal %s | %s | 23 %s 0" % (se.key, s2.text, vlib.hexs(pt))); want.append(vlib.hexs(exp))
+                seal_cases.append("seal %s | %s | 23 %s %s" % (se.name, s2.text, vlib.hexs(pt), ("b%d" % se.pad["c" if to == "s" else "s"]) if se.pad else "0")); want.append(vlib.hexs(exp))
     if seal_cases:
         got = run_model(ck, drv, seal_cases)
         ck.correspond("seal_*(model) reproduces the bytes the library put on the wire", seal_cases, want, got)
@@ -617,6 +719,10 @@ def run(ck):
         ck.correspond("csChacha20Poly1305IetfDecrypt (direct call) vs open_chacha12", cc, ci2, cm2,
                       nontrivial=lambda c, o: o.startswith("D:"))
     dtls_part(ck, h, drv, thorough)
+    if ck.violations:
+        cls = {}
+        for v in ck.violations: cls[str(v["key"]).split(":")[0]] = cls.get(str(v["key"]).split(":")[0], 0) + 1
+        ck.log("violation classes: %s" % cls)
     ck.cov["sessions"] = [s.name for s in sessions]
     ck.cov["exhaustive"] = False
     ck.cov["bounded_exhaustive"] = "every single-bit flip of the first application record (5-byte plaintext; %s) for each family x version" % ("and of the 2-, 32- and 256-byte ones" if thorough else "thorough tier: also 2-, 32- and 256-byte plaintexts")
@@ -639,6 +745,7 @@ def dtls_part(ck, h, drv, thorough):
     keys = ["suite=%s seed=%d msgs=%s" % (su, ck.seed % 1000 + 1, ",".join("%s:%s" % (a, m.hex()) for a, m in msgs)) for n, su in cfgs]
     rc, caps, _ = ck.run_lines(h, ["dcap %s |" % k for k in keys], timeout=600)
     cases, meta = [], []
+    fg, forged, forged_key = Forger(), [], {}
     for (name, su), key, cap in zip(cfgs, keys, caps + [""] * len(keys)):
         f = [x.strip() for x in cap.split("|")]
         if not f[0].startswith("dcap ok"):
@@ -668,22 +775,51 @@ def dtls_part(ck, h, drv, thorough):
             ed.append(("splice:seq-of-next", [d0[:3] + G[1][3:11] + d0[11:], G[1]], 0))
             ed.append(("two-records-one-datagram", [G[0] + G[1], G[2]], None))
             ed.append(("two-records-second-modified", [G[0] + flip(G[1], 8 * len(G[1]) - 1), G[2]], 0))
+            if st.fam == "cbc":
+                # records a key holder can build: every padding length byte 0..255 on a record that holds it exactly (valid), and
+                # the same with one padding byte wrong; fresh sequence number inside the replay window
+                ep_rsn = G[0][3:5] + (1000).to_bytes(6, "big")
+                def dplain(data, p, wrong=None):
+                    m = pyhmac.new(st.mk, ep_rsn + bytes([23, st.maj, st.min]) + len(data).to_bytes(2, "big") + data, HASH[st.msz]).digest()
+                    pad = bytearray([p]) * (p + 1)
+                    if wrong is not None: pad[wrong] ^= 0x40
+                    return b"\xA5" * 16 + data + m + bytes(pad)
+                for pv in range(256):
+                    dl = (-(16 + st.msz + pv + 1)) % 16 or 16
+                    dd = pat(dl, pv)
+                    forged.append((to, "forged-padlen-valid", fg.want("enc aescbc %s %s %s" % (vlib.hexs(st.key), "00" * 16, vlib.hexs(dplain(dd, pv)))), ep_rsn, dd, G, pts + [dd], st))
+                    if pv in (1, 15, 16, 17, 100, 255):
+                        for wpos in sorted({0, pv // 2, pv - 1}):
+                            forged.append((to, "forged-pad-byte-wrong", fg.want("enc aescbc %s %s %s" % (vlib.hexs(st.key), "00" * 16, vlib.hexs(dplain(dd, pv, wpos)))), ep_rsn, None, G, pts, st))
+                forged_key[(name, to)] = key
             for label, dgs, mod in ed:
-                cases.append("drun %s to=%s | %s" % (key, to, ",".join(vlib.hexs(x) for x in dgs)))
+                cases.append("drun %s to=%s | %s | %s" % (key, to, ",".join(vlib.hexs(x) for x in dgs), st.text))
                 meta.append((name, to, "dtls:" + label, dgs, mod, G, pts, st))
                 ck.count("dtls:%s:%s" % (st.fam, label))
+            forged[:] = [x + (name, key) if len(x) == 8 else x for x in forged]
+    fg.resolve(ck, h)
+    for to, label, req, ep_rsn, dd, G, pts2, st, name, key in forged:
+        ct = fg.get(req)
+        if ct is None: ck.count("forge-failed"); continue
+        dg = b"\x17" + bytes([st.maj, st.min]) + ep_rsn + len(ct).to_bytes(2, "big") + ct
+        cases.append("drun %s to=%s | %s,%s | %s" % (key, to, vlib.hexs(dg), vlib.hexs(G[0]), st.text))
+        # a valid key-holder record counts as "sent" for the identity oracle: G + [dg], pts + [dd]
+        meta.append((name, to, "dtls:" + label, [dg, G[0]], 0, (G + [dg]) if dd is not None else G, pts2, st))
+        ck.count("dtls:%s:%s" % (st.fam, label))
     if not cases:
         return
+    order = sorted(range(len(cases)), key=lambda i: (keys.index(cases[i].split(" to=")[0][5:]), i))     # one establishment per session
+    cases, meta = [cases[i] for i in order], [meta[i] for i in order]
     rc, out, err = ck.run_lines(h, cases, timeout=3000)
     out += ["NOOUTPUT"] * (len(cases) - len(out))
-    mcases, mimpl, mlines = [], [], []
+    mcases, mimpl, mlines, trouble = [], [], [], []
     for c, o, (name, to, label, dgs, mod, G, pts, st) in zip(cases, out, meta):
-        rep = {"harness": "h_rec", "case": c[:6000], "observed": o[:400], "config": name}
+        rep = {"harness": "h_rec", "case": c[:70000], "observed": o[:400], "config": name}
         sig = "%s:%s" % (st.fam, label)
         if o.startswith(("CRASH", "CHILD-FAIL")):
             ck.spec_violation("crash:" + sig, "the DTLS receiver crashed (%s) [%s, %s]" % (o, name, label), rep); continue
-        if o.startswith(("SETUP-FAIL", "BADCASE", "NOOUTPUT")):
-            ck.count("harness-trouble"); continue
+        if o.startswith(("SETUP-FAIL", "BADCASE", "NOOUTPUT", "STATE-MISMATCH")):
+            ck.count("harness-trouble:" + o.split()[0]); trouble.append(c[:200]); continue
         slots = [x.split() for x in o.split(" / ")[:-1]]
         seen, bad = [], False
         for i, (dg, sl) in enumerate(zip(dgs, slots)):
@@ -704,11 +840,13 @@ def dtls_part(ck, h, drv, thorough):
                 ck.spec_violation("dtls-data-from-modified:" + sig, "data delivered from a modified record [%s, %s]" % (name, label), dict(rep, expected_by_spec="discarded or fatal")); bad = True
             if rest and not got and not any(t.startswith(("F:", "N", "E", "X")) for t in sl):
                 ck.spec_violation("dtls-modified-unclear:" + sig, "modified datagram neither discarded nor rejected [%s, %s]" % (name, label), rep); bad = True
+        if label == "dtls:forged-padlen-valid" and not any(t == "D:" + vlib.hexs(pts[-1]) for t in (slots[0] if slots else [])):
+            ck.spec_violation("valid-record-rejected:" + sig, "a DTLS record with a valid MAC and %d bytes of correct padding was not delivered [%s]: %s" % (dgs[0][-1] if False else len(pts[-1]), name, o[:80]), rep); bad = True
         if not bad: ck.count("oracle:dtls-ok")
         # model tie: first modified datagram whose epoch/sequence field is intact and whose length field matches its size
-        if mod is not None and label in ("dtls:bitflip:body", "dtls:bitflip:type-version", "dtls:bitflip:second", "dtls:splice:header0-body1") and mod < len(slots):
+        if mod is not None and label in ("dtls:bitflip:body", "dtls:bitflip:type-version", "dtls:bitflip:second", "dtls:splice:header0-body1", "dtls:forged-padlen-valid", "dtls:forged-pad-byte-wrong") and mod < len(slots):
             dg = dgs[mod]
-            if len(dg) >= 13 and int.from_bytes(dg[11:13], "big") == len(dg) - 13 and dg[3:11] == G[mod][3:11]:
+            if len(dg) >= 13 and int.from_bytes(dg[11:13], "big") == len(dg) - 13 and (label.startswith("dtls:forged") or dg[3:11] == G[mod][3:11]):
                 wire, seq = dtls_to_tls(dg)
                 mlines.append("run dtls | %s | %s" % (st.with_(seq=seq).text, vlib.hexs(wire)))
                 mcases.append(c); mimpl.append(" ".join(t for t in slots[mod] if t != "N"))
@@ -716,6 +854,8 @@ def dtls_part(ck, h, drv, thorough):
         mm = run_model(ck, drv, mlines)
         ck.correspond("DTLS 1.2 record vs open_dtls (sequence number from the record header)", mcases, mimpl, [" ".join(t for t in x.split() if not t.startswith("seq=")) for x in mm],
                       nontrivial=lambda c, o: True)
+    if trouble:
+        ck.obligation("harness:dtls-sessions-reproducible", False, detail="%d DTLS cases could not be run on the captured state, e.g. %s" % (len(trouble), trouble[0]))
     ck.cov["dtls_sessions"] = [n for n, su in cfgs]
 
 
